@@ -191,13 +191,13 @@ func (a *attrs) GetObject() (runtime.Object, error) {
 	if a.objErr {
 		return nil, fmt.Errorf("decode boom")
 	}
-	return a.Object, nil
+	return a.AttributesRecord.GetObject()
 }
 func (a *attrs) GetOldObject() (runtime.Object, error) {
 	if a.oldErr {
 		return nil, fmt.Errorf("decode boom")
 	}
-	return a.OldObject, nil
+	return a.AttributesRecord.GetOldObject()
 }
 
 // ---- a case
